@@ -203,6 +203,21 @@ def gen_cases(rng, tier):
     return cases
 
 
+def long_history(rng, ncalls):
+    """one SPTree construction (= one lex_dijkstra call) per line, all made by ONE thread of ONE process; see gen.history_plan"""
+    fresh, private = gen.history_plan(ncalls)
+    out = []
+    for i in range(1, ncalls + 1):
+        if i in fresh: out.append("T 0 " + gen.graph_tokens(gen.path_graph(fresh[i])))
+        elif i in private: out.append("T 0 " + gen.graph_tokens(gen.private_graph(private[i])))
+        else:
+            g = gen.structural(rng, 6)
+            if g[0] == 0: g = gen.path_graph(2)
+            g, _ = gen.weigh(rng, g, rng.choice(["unit", "ties", "ties", "wide"]))
+            out.append("T %d %s" % (rng.randrange(g[0]), gen.graph_tokens(g)))
+    return out
+
+
 def nontrivial(case):
     kind, s, n, es = parse_case(case)
     return len(es) - n + gen.components(n, es) >= 1      # at least one cycle: some pair has two paths
@@ -225,6 +240,15 @@ def check(tier, seed):
         io = lib.run_lines([exe], cases)
         mo = lib.run_model("c12", cases, group=GROUP)
         verdicts = judge_all(cases, io)
+        # a long history of SPTree constructions by ONE thread (state surviving between calls); judged where it differs from the model
+        import random
+        nshort, nh = len(cases), (70000 if tier == "quick" else 140000)
+        hist = long_history(random.Random(seed * 7919 + 12), nh)
+        c.extra["long_history_calls"] = nh
+        io_h = lib.run_lines([exe], hist, par=1)
+        mo_h = lib.run_model("c12", hist, group=GROUP)
+        cases, io, mo = cases + hist, io + io_h, mo + mo_h
+        verdicts = list(verdicts) + [judge(hist[j], io_h[j]) if io_h[j] != mo_h[j] else None for j in range(nh)]
         bad = []
         ntrees = 0
         for i, cs in enumerate(cases):
@@ -239,12 +263,14 @@ def check(tier, seed):
             why = verdicts[i]; key = why is not None
             if rep.get(key, 0) >= 2: continue
             rep[key] = rep.get(key, 0) + 1
+            hd = {"history": {"seed": seed, "ncalls": nh, "index": i - nshort}} if i >= nshort else {}
             if why:
-                c.violation("shortest-path trees: " + why, {"component": "c12", "case": cases[i], "impl": io[i], "model": mo[i]}, True)
+                c.violation("shortest-path trees: " + why + (" (call %d of a single-thread history of SPTree constructions)" % (i - nshort + 1) if hd else ""),
+                            dict({"component": "c12", "case": cases[i], "impl": io[i], "model": mo[i]}, **hd), True)
             else:
                 c.violation("correspondence c12 (SPTree vs extracted LexSPModel, exact) no longer checks; the implementation's answer still satisfies the property text",
                             {"component": "c12", "theorem_or_correspondence": "correspondence c12: extracted sptree_Z / sptrees_all_Z vs harness/c12.cpp",
-                             "case": cases[i], "impl": io[i], "model": mo[i]}, False)
+                             "case": cases[i], "impl": io[i], "model": mo[i], **hd}, False)
         okset = set(bad)
         extra = [i for i in range(len(cases)) if i not in okset and verdicts[i]]
         for i in sorted(extra, key=lambda j: len(cases[j]))[:2]:
@@ -263,7 +289,14 @@ def replay(path):
     lib.ensure_model(GROUP)
     exe, err = lib.build_cpp(name="c12", srcs=["c12.cpp"], libs=LIBS)
     line = r["case"]
-    i = lib.run_lines([exe], [line], par=1)[0]
+    if "history" in r:       # the failure needs the calls made before it by the same thread: regenerate the stream and run its prefix
+        import random
+        h = r["history"]
+        hist = long_history(random.Random(h["seed"] * 7919 + 12), h["ncalls"])[:h["index"] + 1]
+        assert hist[-1] == line, "history stream not reproducible"
+        i = lib.run_lines([exe], hist, par=1)[-1]
+    else:
+        i = lib.run_lines([exe], [line], par=1)[0]
     m = lib.run_model("c12", [line], par=1, group=GROUP)[0]
     why = judge(line, i)
     print("case :", line); print("impl :", i[:2000]); print("model:", m[:2000]); print("judge:", why)
